@@ -96,6 +96,17 @@ def run(chk):
             return None
         if kt.margin_ok(init, X):
             explore("k-means", n, D, km_ref, km_dask, km_cmp, feat_ok=True, data={"X": hexlist(X), "init": hexlist(init), "cap": cap, "cthr": thr})
+        # ---- a cluster that captures no sample (a far-away initial centroid): it keeps its centroid on every route
+        init_e = np.array(init, dtype=float)
+        init_e[-1] = init_e[-1] + 1e3
+        ke_, ne_, _ = kt.run_kfit(init_e, X, None, cap=3, cthr=None)
+        for rows_e in ((len(X),), tuple(gen.random_composition(r, len(X), 3))):
+            kd_, nd_, _ = kt.run_kfit(init_e, X, rows_e, cap=3, cthr=None)
+            chk.count(1, key=("k-means, empty cluster", len(rows_e)))
+            if not (np.all(np.isfinite(np.asarray(kd_.centroids_))) and close(kd_.centroids_, ke_.centroids_, rtol=1e-9, atol=1e-10)
+                    and close(kd_.average_min_distance, ke_.average_min_distance, rtol=1e-9, atol=1e-10)):
+                chk.fail("k-means with a cluster that captures no sample: training on a Dask array (row blocks %s) gives centroids %s, in memory %s"
+                         % (rows_e, np.asarray(kd_.centroids_).tolist(), np.asarray(ke_.centroids_).tolist()), {"X": hexlist(X), "init": hexlist(init_e), "row_chunks": list(rows_e)})
         # ------------------------------------------------------------------ GMM ML / MAP
         w, mu, var, s, Xg = gt.gen_training(r, N=n)
         C, Dg = mu.shape
@@ -140,6 +151,20 @@ def run(chk):
                 continue
             explore("GMM %s" % trainer.upper(), n, Dg, g_ref, g_dask, g_cmp, feat_ok=True,
                     data={"X": hexlist(Xg), "w": hexlist(w), "mu": hexlist(mu), "var": hexlist(var), "switches": list(sw), "cap": capg, "cthr": cfg["cthr"]})
+        # ---- a long run under a very tight threshold on workers that see serialised copies: every (however small) update comes back to the
+        #      caller, so the run has the same length and result as in memory
+        if rd % 2 == 1:
+            cfgL = dict(w=w, mu=mu + 0.8 * s, var=var, thr=None, sw=(True, False, False), eps=float(np.finfo(float).eps), cap=400, cthr=1e-13)
+            mL, _ = gt.build_machine(cfgL)
+            nL, _, _ = gt.run_fit(mL, Xg)
+            mD, _ = gt.build_machine(cfgL)
+            with LogCounter("bob.learn.em.gmm") as lcL:
+                dasksched.run_under(17 + rd, True, lambda: mD.fit(da.from_array(Xg, chunks=((len(Xg) // 2, len(Xg) - len(Xg) // 2), (Dg,)))))
+            chk.count(1, key=("GMM ML, tight threshold, serialised tasks", nL >= 10))
+            if gt.well_conditioned(mL, Xg) and not (abs(lcL.count - nL) <= 1 and close(mD.means, mL.means, rtol=1e-8, atol=1e-10)):
+                chk.fail("GMM ML (means only, threshold 1e-13) on a Dask array with serialised tasks runs %d iterations and in memory %d; largest difference of the means %.3g"
+                         % (lcL.count, nL, float(np.abs(np.asarray(mD.means) - np.asarray(mL.means)).max())),
+                         {"X": hexlist(Xg), "w": hexlist(w), "mu": hexlist(mu + 0.8 * s), "var": hexlist(var), "threshold": 1e-13, "isolated": True})
         # ---- a raised count threshold is a rule about the TOTAL count of a component, not about its count inside one block: one EM iteration from the
         #      generating parameters (well conditioned) on single-row blocks and on a random blocking, every round
         for thr_n in (0.3, 0.05):
